@@ -31,3 +31,18 @@ void harness_sym2z(void) {
   xrl_error_free(err);
   VH_END();
 }
+
+/* the comparators behind the parser's symbol lookup (bsearch over the strcmp-sorted table): both realise strcmp on the full symbol,
+ * so a key finds exactly the entry of that name (and "Ca" does not match the entry "C") */
+static int sgn(int x) { return x < 0 ? -1 : x > 0 ? 1 : 0; }
+void harness_mendel_cmp(void) {
+  char a[4], b[4];
+  for (int k = 0; k < 3; k++) { a[k] = nondet_char(); b[k] = nondet_char(); }
+  a[3] = 0; b[3] = 0;
+  int ref = 0;
+  for (int k = 0; k <= 3; k++) { int x = a[k] & 0xFF, y = b[k] & 0xFF; if (x != y) { ref = x < y ? -1 : 1; break; } if (x == 0) break; }
+  struct MendelElement ea, eb; ea.name = a; ea.Zatom = 1; eb.name = b; eb.Zatom = 2;
+  CHECK(sgn(matchMendelElement(a, &eb)) == ref, "symbol lookup comparator orders by the full symbol (strcmp semantics)");
+  CHECK(sgn(compareMendelElements(&ea, &eb)) == ref, "symbol sort comparator orders by the full symbol (strcmp semantics)");
+  VH_END();
+}
